@@ -526,3 +526,162 @@ def rule_B7(ctx, prog, label, rule='B7'):
         rr.ob(ok, dict(stage=s, expression=detail[:90]),
               Finding(rule, '%s|stage=%d' % (rule, s), st.loc, f.name, 'stage %d of m4ri_swap_bits is not the swap of adjacent %d-bit groups: `%s`' % (s, s, detail[:100]), {}, label))
     return rr
+
+
+# ====================================================================== B5 split agreement
+
+class IntEval(object):
+    """Constant folding of integer expressions under a binding of some variables (single-definition locals are
+    followed); used to compare two formulas over a finite range without running any library code."""
+
+    def __init__(self, fs, binding):
+        self.fs, self.b = fs, binding
+
+    def ev(self, e, depth=0):
+        e = strip(e, casts=True)
+        if e is None or depth > 20:
+            return None
+        v = int_value(e)
+        if v is not None:
+            return v
+        k = e.kind
+        if k == 'DeclRefExpr':
+            if e.refid in self.b:
+                return self.b[e.refid]
+            d = self.fs.single_def(e.refid)
+            if d is not None:
+                return self.ev(d, depth + 1)
+            return None
+        if k == 'BinaryOperator':
+            a, b = self.ev(e.kids[0], depth + 1), self.ev(e.kids[1], depth + 1)
+            if a is None or b is None:
+                return None
+            try:
+                return {'+': a + b, '-': a - b, '*': a * b, '/': int(a / b) if b else None, '%': a - b * int(a / b) if b else None,
+                        '<': int(a < b), '>': int(a > b), '<=': int(a <= b), '>=': int(a >= b), '==': int(a == b), '!=': int(a != b),
+                        '&&': int(bool(a) and bool(b)), '||': int(bool(a) or bool(b)), '<<': a << b, '>>': a >> b, '&': a & b, '|': a | b}.get(e.op)
+            except Exception:
+                return None
+        if k == 'ConditionalOperator':
+            c = self.ev(e.kids[0], depth + 1)
+            if c is None:
+                return None
+            return self.ev(e.kids[1] if c else e.kids[2], depth + 1)
+        if k == 'UnaryOperator' and e.op in ('-', '!'):
+            a = self.ev(e.kids[0], depth + 1)
+            return None if a is None else (-a if e.op == '-' else int(not a))
+        return None
+
+
+def _consumer_split(f):
+    """For mzd_process_rowsN: the width expression of table j, j = 0..N-1, as AST nodes (in table order):
+    x_j = L_j[bits & mask_j];  mask_j = LEFT_BITMASK(w_j)."""
+    from .symbolic import FuncSym
+    fs = FuncSym(f)
+    tabs = [p for p in f.params if p.name.startswith('L') and p.name[1:].isdigit()]
+    out = []
+    for lp in sorted(tabs, key=lambda p: int(p.name[1:])):
+        w = None
+        for n in f.body.walk():
+            if n.kind == 'ArraySubscriptExpr':
+                b = strip(n.kids[0], casts=True)
+                if b.kind == 'DeclRefExpr' and b.refid == lp.id:
+                    idx = strip(n.kids[1], casts=True)
+                    if idx.kind == 'BinaryOperator' and idx.op == '&':
+                        for m in idx.kids:
+                            m = strip(m, casts=True)
+                            if m.kind == 'DeclRefExpr':
+                                d = fs.single_def(m.refid)
+                                # mask = m4ri_ffff >> (64 - (w)) % 64
+                                if d is not None:
+                                    for x in d.walk():
+                                        if x.kind == 'DeclRefExpr' and x.refkind == 'VarDecl' and x.ref not in ('m4ri_ffff', 'm4ri_radix'):
+                                            w = x
+                                            break
+        out.append(w)
+    return fs, out
+
+
+def rule_B5(ctx, prog, label, rule='B5'):
+    """Builder/consumer agreement of the table split: for every call of mzd_process_rowsN(.., k = KB, T0, L0, ..) the
+    j-th table was built by mzd_make_table(A, r + w_0 + .. + w_(j-1), c, w_j, T_j, L_j) where w_j, evaluated for every
+    K in 1..64, equals the width the consumer derives for table j from its parameter k."""
+    from .symbolic import FuncSym
+    rr = RuleResult(rule, 'the table widths used when building T_j agree, for every k in 1..64, with the widths mzd_process_rowsN derives; row offsets are the prefix sums')
+    consumers = {}
+    for N in range(2, 7):
+        name = 'mzd_process_rows%d' % N
+        if name in prog.funcs:
+            consumers[name] = (N,) + _consumer_split(prog.funcs[name])
+    if len(consumers) < 5:
+        raise AnalysisBroken('B5: expected mzd_process_rows2..6')
+    for f in sorted(prog.all_funcs(), key=lambda f: (f.file, f.line)):
+        calls = [c for c in f.body.find('CallExpr') if callee_name(c) in consumers]
+        if not calls:
+            continue
+        fs = FuncSym(f)
+        fs0 = FuncSym(f, max_depth=0)
+        for c in calls:
+            N, cfs, cw = consumers[callee_name(c)]
+            callee = prog.funcs[callee_name(c)]
+            kparam = [p for p in callee.params if p.name == 'k'][0]
+            kidx = callee.params.index(kparam)
+            karg = strip(c.kids[1 + kidx], casts=True)
+            if karg.kind != 'DeclRefExpr':
+                continue
+            # builders in the same block
+            blk = fs.enclosing(c, ('CompoundStmt',))
+            builders = {}
+            p_ = blk
+            while p_ is not None and not builders:
+                for b in p_.find('CallExpr'):
+                    if callee_name(b) == 'mzd_make_table' and len(b.kids) >= 7:
+                        t = strip(b.kids[5], casts=True)
+                        if t.kind == 'DeclRefExpr':
+                            builders.setdefault(t.ref, b)
+                if builders:
+                    break
+                p_ = fs.enclosing(p_, ('CompoundStmt',))
+            tparams = [p for p in callee.params if p.name.startswith('T') and p.name[1:].isdigit()]
+            tparams.sort(key=lambda p: int(p.name[1:]))
+            widths = []
+            for j, tp in enumerate(tparams):
+                rr.instances += 1
+                targ = strip(c.kids[1 + callee.params.index(tp)], casts=True)
+                b = builders.get(targ.ref) if targ.kind == 'DeclRefExpr' else None
+                if b is None:
+                    rr.ob(False, None, Finding(rule, '%s|%s|%s|T%d|nobuilder' % (rule, f.name, callee.name, j), c.loc, f.name,
+                                               'no mzd_make_table call for table argument `%s` of %s in the same block' % (pp(targ), callee.name), {}, label))
+                    continue
+                wj = b.kids[4]
+                widths.append(strip(wj, casts=True))
+                bad = None
+                for K in range(1, 65):
+                    a = IntEval(fs, {karg.refid: K}).ev(wj)
+                    z = IntEval(cfs, {kparam.id: K}).ev(cw[j]) if cw[j] is not None else None
+                    if a is None or z is None:
+                        bad = ('?', K, a, z)
+                        break
+                    if a != z:
+                        bad = ('!=', K, a, z)
+                        break
+                ok = bad is None
+                # row offset = first builder's row + sum of earlier widths
+                if ok and j > 0:
+                    row = fs0.sym(b.kids[2])
+                    first = builders.get(strip(c.kids[1 + callee.params.index(tparams[0])], casts=True).ref)
+                    base = fs0.sym(first.kids[2]) if first is not None else None
+                    want = base
+                    for w_ in widths[:j]:
+                        want = want + fs0.sym(w_) if want is not None else None
+                    if want is None or row != want:
+                        ok = False
+                        bad = ('row', None, repr(row), repr(want))
+                rr.ob(ok, dict(caller=f.name, consumer=callee.name, table=j, width=pp(wj)) if j == 0 else None,
+                      Finding(rule, '%s|%s|%s|T%d' % (rule, f.name, callee.name, j), b.loc, f.name,
+                              ('table %d for %s is built over %s bits but the consumer reads %s bits of the pattern for k = %s (`%s` in %s vs `%s` in %s)' % (
+                                  j, callee.name, bad[2], bad[3], bad[1], pp(wj), f.name, pp(cw[j]) if cw[j] is not None else '?', callee.name))
+                              if bad and bad[0] in ('!=', '?') else
+                              ('table %d for %s starts at row `%s`, expected the prefix sum `%s`' % (j, callee.name, bad[2], bad[3]) if bad else ''), {}, label))
+    rr.require_floor(40, 'table/width pairs')
+    return rr
